@@ -5,7 +5,7 @@
 //! of the inputs, so the native runs cover every pattern (one representative each) — this part is
 //! pattern-exhaustive sampling of VecArray; the bit-precise all-inputs claim for VecArray is Engine K's.
 use super::*;
-use crate::explore::{assume, branch, fresh, iw};
+use crate::explore::{assume, branch, choose, fresh, iw};
 use crate::plain::*;
 use crate::runner::*;
 use crate::term::{self as tm, T};
@@ -212,15 +212,16 @@ fn oracle(inp: &PV, out: &PV) -> T {
                 }
             }
         }
-        3 => {
-            // connected components over 4 nodes with edges idx[i] -- idx2[i]: dense numbering, together iff connected
+        3 | 5 => {
+            // connected components over 4 (group 5: d) nodes with edges idx[i] -- idx2[i]: dense numbering, together iff connected
+            let nn = if group == 3 { 4 } else { tm::as_const(d).expect("node count") as usize };
             let cc = out.at(19).ts();
             let k = out.at(20).t();
-            cs.push(tm::bconst(cc.len() == 4));
-            if cc.len() == 4 {
+            cs.push(tm::bconst(cc.len() == nn));
+            if cc.len() == nn {
                 let pairs: Vec<(T, T)> = idx.iter().cloned().zip(idx2.iter().cloned()).collect();
-                let rep = reps_of_pairs(4, &pairs);
-                for a in 0..4 {
+                let rep = reps_of_pairs(nn, &pairs);
+                for a in 0..nn {
                     cs.push(tm::ult(cc[a], k));
                     for b in 0..a {
                         cs.push(tm::iff(tm::eq(cc[a], cc[b]), tm::eq(rep[a], rep[b])));
@@ -276,11 +277,44 @@ pub fn jobs(tier: Tier, _seed: u64) -> Vec<Job> {
             }
         }
     }
+    // group 5: union-find trees of every depth the node count allows. Union by rank only builds a tree of depth
+    // k from two trees of depth k-1, so depth 3 needs 8 nodes and depth 4 needs 16: the merge order that
+    // achieves it (binomial), under every rotation of the node names and both edge orientations, followed by
+    // one more edge with symbolic endpoints.
+    for k in [3usize, 4] {
+        let nn = 1usize << k;
+        let gen = move || {
+            let rot = choose(nn);
+            let flip = choose(2) == 1;
+            let (mut a, mut b): (Vec<T>, Vec<T>) = (vec![], vec![]);
+            for l in 0..k {
+                let mut start = 0;
+                while start < nn {
+                    let (u, v) = ((start + rot) % nn, (start + (1 << l) + rot) % nn);
+                    let (u, v) = if flip { (v, u) } else { (u, v) };
+                    a.push(ci(u));
+                    b.push(ci(v));
+                    start += 1 << (l + 1);
+                }
+                // the last level is left out half of the time: two trees of depth k-1
+                if l + 2 == k && choose(2) == 1 {
+                    break;
+                }
+            }
+            let extra = gen_idx(2, nn, "e");
+            force_patterns(&extra);
+            a.push(extra[0]);
+            b.push(extra[1]);
+            let base: Vec<T> = (0..4).map(|_| ci(4)).collect();
+            PV::List(vec![PV::of_ts(&[]), PV::of_ts(&a), PV::of_ts(&[]), PV::T(ci(nn)), PV::T(ci(0)), PV::of_ts(&base), PV::of_ts(&b), PV::of_ts(&gen_idx(4, 3, "k")), PV::T(tm::c(5, 8))])
+        };
+        out.push(case_job(crate::case!(format!("array primitives group 5 (union-find depth {}) nodes={}", k, nn), gen, c07_prims, oracle, 8), cfg.clone(), per_job, tier == Tier::Quick));
+    }
     out
 }
 
 /// The Vec-backend conformance jobs for the primitives a strict algorithm relies on (groups: 0 order-based,
-/// 1 count-driven, 2 index-driven, 3 connected components, 4 sort_by), so that a change to the Vec backend
+/// 1 count-driven, 2 index-driven, 3 connected components, 4 sort_by, 5 connected components on 8 and 16 nodes), so that a change to the Vec backend
 /// that breaks the algorithm's property is reported by that property's check too.
 pub fn conformance_jobs(tier: Tier, groups: &[u64]) -> Vec<Job> {
     jobs(tier, 0)
